@@ -297,8 +297,9 @@ def run(pid, tier, seed):
             j += 1
             ev.stat("cap-op:" + o.split()[0])
             if want != b:
-                rep.violation("counts / capacities after %r differ from the bookkeeping model: %s, model %s (order %s)" % (cmd, b, want, RAW_KEYS), ctx,
-                              signature={"symptom": "capacity-differs", "op": cmd.split()[0]})
+                rep.violation("counts / capacities after %r differ from the bookkeeping model: %s, model %s (order %s)" % (cmd, b, want, RAW_KEYS),
+                              dict(ctx, correspondence="counts / capacities vs Qsx.Cap (lean/Qsx/Model/Cap.lean)"),
+                              signature={"symptom": "capacity-differs", "op": cmd.split()[0]}, found_input=False)
                 break
             if not (b[0] <= b[4] and b[1] <= b[5] and b[2] <= b[6] and b[3] <= b[7] and b[1] == b[0] + b[2]):
                 rep.violation("a count exceeds its capacity after %r: %s" % (cmd, dict(zip(RAW_KEYS, b))), ctx, signature={"symptom": "count-exceeds-capacity"})
